@@ -9,7 +9,7 @@ use serde::{Deserialize, Serialize};
 use serde_json::json;
 use std::cell::Cell;
 
-const RULE: &str = "cases = (macro group, variant Some/None/Ok/Err, payload, second payload); every option::/result:: macro in every accepted argument form (inline closure, closure with pattern parameter, function path) is compared with the std method of the same name on the same value, the fallback/mapper call counter must equal std's (0 or 1), and with effectful subject / value-argument expressions the number of evaluations must equal the method call's (each exactly once) and, for the option:: / result:: macros, their order too (receiver before argument); try_!/try_opt! (with and without map_err) against `?`; min!/max!/min_by!/max_by!/min_by_key!/max_by_key! against std::cmp on keyed values with distinguishable identity (which argument is returned, incl. equal keys) and on primitives and compound keys (Option<&[u32]>, &[u32], Option<&str>); non-trivial = the variant that triggers the fallback, boundary payloads, equal keys with different tags; distinct by the whole case";
+const RULE: &str = "cases = (macro group, variant Some/None/Ok/Err, payload, second payload); every option::/result:: macro in every accepted argument form (inline closure, closure with pattern parameter, function path) is compared with the std method of the same name on the same value (payload types i64, String, &str, (), tuples), the fallback/mapper call counter must equal std's (0 or 1), and with effectful subject / value-argument expressions the number of evaluations must equal the method call's (each exactly once) and, for the option:: / result:: macros, their order too (receiver before argument); try_!/try_opt! (with and without map_err) against `?`; min!/max!/min_by!/max_by!/min_by_key!/max_by_key! against std::cmp on keyed values with distinguishable identity (which argument is returned, incl. equal keys) and on primitives and compound keys (Option<&[u32]>, &[u32], Option<&str>); non-trivial = the variant that triggers the fallback, boundary payloads, equal keys with different tags; distinct by the whole case";
 
 #[derive(Serialize, Deserialize, Debug, Clone, Hash)]
 struct Case {
@@ -134,6 +134,39 @@ fn option_macros(v: Option<i64>, b: i64) -> Result<(), String> {
     } else {
         ensure!(kvh::catch(|| option::unwrap!(v)).is_err(), "option::unwrap!(None) did not panic");
     }
+    Ok(())
+}
+
+/// the same macros on payloads that are not Copy (String), zero-sized (()), and references: the expansion moves the
+/// payload exactly like the method does
+fn option_macros_other_payloads(v: Option<i64>, b: i64) -> Result<(), String> {
+    let s = |x: i64| format!("s{x}");
+    let vs: Option<String> = v.map(s);
+    same!("option::unwrap_or!(String)", option::unwrap_or!(vs.clone(), s(b)), vs.clone().unwrap_or(s(b)));
+    same!("option::unwrap_or_else!(String)", option::unwrap_or_else!(vs.clone(), || { tick(); s(b) }), vs.clone().unwrap_or_else(|| { tick(); s(b) }));
+    same!("option::ok_or!(String, String)", option::ok_or!(vs.clone(), s(b)), vs.clone().ok_or(s(b)));
+    same!("option::map!(String -> usize)", option::map!(vs.clone(), |x| { tick(); x.len() }), vs.clone().map(|x| { tick(); x.len() }));
+    same!("option::map!(String -> String)", option::map!(vs.clone(), |x| { tick(); x + "!" }), vs.clone().map(|x: String| { tick(); x + "!" }));
+    same!("option::and_then!(String)", option::and_then!(vs.clone(), |x| { tick(); if x.len() > 2 { Some(x) } else { None } }), vs.clone().and_then(|x| { tick(); if x.len() > 2 { Some(x) } else { None } }));
+    same!("option::filter!(String)", option::filter!(vs.clone(), |x| { tick(); x.len() % 2 == 0 }), vs.clone().filter(|x| { tick(); x.len() % 2 == 0 }));
+    same!("option::or_else!(String)", option::or_else!(vs.clone(), || { tick(); Some(s(b)) }), vs.clone().or_else(|| { tick(); Some(s(b)) }));
+    let vr: Option<&str> = vs.as_deref();
+    same!("option::map!(&str)", option::map!(vr, |x| { tick(); x.len() }), vr.map(|x| { tick(); x.len() }));
+    same!("option::unwrap_or!(&str)", option::unwrap_or!(vr, "fallback"), vr.unwrap_or("fallback"));
+    let vu: Option<()> = v.map(|_| ());
+    same!("option::map!(())", option::map!(vu, |()| { tick(); 5u8 }), vu.map(|()| { tick(); 5u8 }));
+    same!("option::ok_or!((), ())", option::ok_or!(vu, ()), vu.ok_or(()));
+    let vt: Option<(i64, String)> = v.map(|x| (x, s(x)));
+    same!("option::map!(tuple pattern, String)", option::map!(vt.clone(), |(n, t)| { tick(); format!("{n}{t}") }), vt.clone().map(|(n, t)| { tick(); format!("{n}{t}") }));
+    let rs: Result<String, String> = match v { Some(x) => Ok(s(x)), None => Err(s(b)) };
+    same!("result::unwrap_or!(String)", result::unwrap_or!(rs.clone(), s(b)), rs.clone().unwrap_or(s(b)));
+    same!("result::map!(String)", result::map!(rs.clone(), |x| { tick(); x.len() }), rs.clone().map(|x| { tick(); x.len() }));
+    same!("result::map_err!(String)", result::map_err!(rs.clone(), |e| { tick(); e.len() }), rs.clone().map_err(|e| { tick(); e.len() }));
+    same!("result::ok!(String)", result::ok!(rs.clone()), rs.clone().ok());
+    same!("result::err!(String)", result::err!(rs.clone()), rs.clone().err());
+    same!("result::and_then!(String)", result::and_then!(rs.clone(), |x| { tick(); if x.len() > 2 { Ok(x) } else { Err(x) } }), rs.clone().and_then(|x| { tick(); if x.len() > 2 { Ok(x) } else { Err(x) } }));
+    same!("result::or_else!(String)", result::or_else!(rs.clone(), |e| { tick(); if e.len() > 2 { Ok::<String, String>(e) } else { Err(e) } }), rs.clone().or_else(|e| { tick(); if e.len() > 2 { Ok::<String, String>(e) } else { Err(e) } }));
+    same!("result::unwrap_or_else!(String)", result::unwrap_or_else!(rs.clone(), |e| { tick(); e + "?" }), rs.clone().unwrap_or_else(|e| { tick(); e + "?" }));
     Ok(())
 }
 
@@ -395,7 +428,10 @@ fn minmax_prim(a: i64, b: i64) -> Result<(), String> {
 
 fn run_case(c: &Case) -> Result<(), String> {
     match c.group {
-        0 => option_macros(if c.pos { Some(c.a) } else { None }, c.b),
+        0 => {
+            option_macros(if c.pos { Some(c.a) } else { None }, c.b)?;
+            option_macros_other_payloads(if c.pos { Some(c.a) } else { None }, c.b)
+        }
         1 => result_macros(if c.pos { Ok(c.a) } else { Err(c.a) }, c.b),
         2 => try_macros(c.pos, c.a, c.b),
         3 => minmax_keyed(c.a, c.b),
